@@ -92,4 +92,43 @@ theorem render_numa_exists (t : Tree) (hn : ∃ x ∈ objsT t, x.type = tNUMA) (
   rw [List.map_eq_nil_iff, List.filter_eq_nil_iff] at hnil
   exact hnil oc hoc (by rw [e, hxt]; rfl)
 
+/-- at most one Machine object (C01 clause machine-only-at-root, on the tree) -/
+def machineOnce (t : Tree) : Prop := cnt (fun x => x.type) tMACHINE (objsT t) ≤ 1
+
+instance (t : Tree) : Decidable (machineOnce t) := by unfold machineOnce; exact inferInstance
+
+theorem clause_machine_only_at_root : topClause "machine-only-at-root" = fun d _ =>
+    d.objs.all (fun o => o.type != tMACHINE || o.id == 0) := by
+  simp only [topClause, topClauses, List.find?, String.reduceBEq]
+
+/-- **machine-only-at-root** for the rendering of every tree with a Machine root and no second Machine object -/
+theorem render_machine_only_at_root (t : Tree) (hm : t.obj.type = tMACHINE) (h1 : machineOnce t) (h : Hdr) (ex : RObj → Extra) :
+    topClause "machine-only-at-root" (render t h ex) (mkAux (render t h ex)) = true := by
+  rw [clause_machine_only_at_root]
+  simp only [List.all_eq_true, Bool.or_eq_true, bne_iff_ne, ne_eq, beq_iff_eq]
+  intro o ho
+  obtain ⟨oc, hoc, rfl⟩ := render_mem t h ex o ho
+  by_cases hty : (rObj t ex oc).type = tMACHINE
+  · right
+    unfold rObj at hty ⊢
+    rw [ro_type] at hty
+    rw [ro_id]
+    obtain ⟨rest, hocc⟩ := occsT_head 0 (-1) 0 (-1) (-1) t
+    have hobjs := occs_map_obj t
+    unfold occs at hoc hobjs
+    rw [hocc] at hoc hobjs
+    rcases List.mem_cons.1 hoc with e | e
+    · rw [e]
+    · exfalso
+      unfold machineOnce at h1
+      rw [← hobjs, List.map_cons, cnt_cons] at h1
+      have c1 : cnt (fun x => x.type) tMACHINE [t.obj] = 1 := by unfold cnt; simp [hm]
+      have c2 : 0 < cnt (fun x => x.type) tMACHINE (rest.map (·.t.obj)) := by
+        unfold cnt
+        rw [List.count_pos_iff, List.mem_map]
+        exact ⟨oc.t.obj, List.mem_map_of_mem e, hty⟩
+      have : cnt (fun x => x.type) tMACHINE [(⟨0, -1, 0, -1, -1, t⟩ : Occ).t.obj] = 1 := c1
+      omega
+  · exact Or.inl hty
+
 end Hw.Topo.Restrict
